@@ -35,6 +35,10 @@ pub fn resolve_assert(
         report.error_span(
             "assertion failed",
             ast_assert.condition_expr.span());
+
+        // A failed assertion must also fail the assembly,
+        // after the remaining assertions had their turn
+        return Ok(asm::ResolutionState::Unresolved);
     }
     
     Ok(asm::ResolutionState::Resolved)
